@@ -163,7 +163,11 @@ NOW_CHOICES = [1500000000123, 0, 1, 1234567890000, 2 ** 40 + 5]
 
 # --------------------------------------------------------------------------- generators
 
-def gen_int(rng, bits, signed=True, p_bad=0.04):
+PBAD = [0.04]  # default probability of an out-of-range int; scenario generators lower it for mostly-valid runs
+
+
+def gen_int(rng, bits, signed=True, p_bad=None):
+    p_bad = PBAD[0] if p_bad is None else p_bad
     lo, hi = (-(1 << (bits - 1)), (1 << (bits - 1)) - 1) if signed else (0, (1 << bits) - 1)
     r = rng.random()
     if r < p_bad:
